@@ -14,3 +14,15 @@ T("C08", "twin-struct-unpack-length-checked", "artifact.py", "", "", edits=[_IMP
   "            if len(data) != ARTIFACT_HEADER.size:\n                break\n            _, size, xorkey, hints = ARTIFACT_HEADER.unpack(data)\n")])
 M("C08", "scan-raises-when-not-found", "pe.py", "                    return start_offset + offset\n        except EOFError:\n            continue\n    return None\n",
   "                    return start_offset + offset\n        except EOFError:\n            continue\n    raise LookupError(\"no MZ header\")\n", "C08.R")
+
+# try/except replaced by a generator-based context manager of the package (escape analysis weaves the with-body into the
+# manager's `yield`)
+_RN_OLD = ("        try:\n            self.fh.seek(-4, io.SEEK_CUR)\n            nonce = self.fh.read(4)\n        except OSError:\n"
+           "            nonce = b\"\\x00\\x00\\x00\\x00\"\n")
+_RN_NEW = ("        nonce = b\"\\x00\\x00\\x00\\x00\"\n        with _ignoring({EXC}):\n            self.fh.seek(-4, io.SEEK_CUR)\n            nonce = self.fh.read(4)\n")
+_CM_IMPORT = ("xordecode.py", "import collections\n", "import collections\nimport contextlib\n")
+_CM_DEF = ("xordecode.py", "class XorEncodedFile(io.RawIOBase):", "@contextlib.contextmanager\ndef _ignoring(exc):\n    try:\n        yield\n    except exc:\n        pass\n\n\nclass XorEncodedFile(io.RawIOBase):")
+_CM_DEF_OS = ("xordecode.py", "class XorEncodedFile(io.RawIOBase):", "@contextlib.contextmanager\ndef _ignoring_oserror():\n    try:\n        yield\n    except OSError:\n        pass\n\n\nclass XorEncodedFile(io.RawIOBase):")
+_CM_DEF_VE = ("xordecode.py", "class XorEncodedFile(io.RawIOBase):", "@contextlib.contextmanager\ndef _ignoring_oserror():\n    try:\n        yield\n    except ValueError:\n        pass\n\n\nclass XorEncodedFile(io.RawIOBase):")
+T("C08", "twin-read-nonce-context-manager", "xordecode.py", "", "", edits=[_CM_IMPORT, _CM_DEF_OS, ("xordecode.py", _RN_OLD, _RN_NEW.replace("_ignoring({EXC})", "_ignoring_oserror()"))])
+M("C08", "read-nonce-context-manager-wrong-class", "xordecode.py", "", "", "C08.R1", edits=[_CM_IMPORT, _CM_DEF_VE, ("xordecode.py", _RN_OLD, _RN_NEW.replace("_ignoring({EXC})", "_ignoring_oserror()"))])
